@@ -28,6 +28,10 @@ var ghostSorts = map[string]Sort{
 	// C13 ghosts: settled[kDel(..)] = the position's reward indices equal the validator's current ones;
 	// vsettled[val] = nothing is pending in x/distribution for the module's delegation to val
 	"settled": ArrSort(SBytes, SBool), "vsettled": ArrSort(SBytes, SBool),
+	// C11 effect ledgers: coins minted to / burnt from an account per denom, and tokens the staking module was asked to
+	// bond for / reported as unbonded for a delegator (written only by the bank and staking models)
+	"minted": ArrSort(SBytes, ArrSort(SStr, SInt)), "burned": ArrSort(SBytes, ArrSort(SStr, SInt)),
+	"sdelegated": ArrSort(SBytes, SInt), "sunbonded": ArrSort(SBytes, SInt),
 }
 
 const (
@@ -202,6 +206,18 @@ func init() {
 	}
 	ghostFuns["vsettled"] = func(ev *Evaluator, a []*Term) Val {
 		return Select(ev.M.GetG("vsettled", ghostSorts["vsettled"]), a[0])
+	}
+	for _, g := range []string{"minted", "burned"} {
+		g := g
+		ghostFuns[g] = func(ev *Evaluator, a []*Term) Val {
+			return Select(Select(ev.M.GetG(g, ghostSorts[g]), a[0]), a[1])
+		}
+	}
+	for _, g := range []string{"sdelegated", "sunbonded"} {
+		g := g
+		ghostFuns[g] = func(ev *Evaluator, a []*Term) Val {
+			return Select(ev.M.GetG(g, ghostSorts[g]), a[0])
+		}
 	}
 	ghostFuns["bs"] = func(ev *Evaluator, a []*Term) Val {
 		ev.E.declBucketSums(ev.M)
